@@ -4,6 +4,44 @@ import json, os, subprocess
 ROOT = os.path.dirname(os.path.dirname(os.path.abspath(__file__)))
 
 CLAIMED = {
+ "C04": dict(
+    category="proof",
+    text="Coq theorems (Props/C04.v, closed under the global context): for ALL operands, the model of Add/Sub/Mul/Quo raises "
+         "ErrNaN exactly on the invalid operations (Inf-Inf, 0*Inf, 0/0, Inf/Inf), otherwise returns what the IEEE-754 tables "
+         "prescribe for zero/infinite operands (signs by XOR, x/0 and Inf*x infinite, x/Inf zero, exact zero sums +0 or -0 under "
+         "ToNegativeInf, (-0)+(-0) = -0), leaves a canonical receiver also after ErrNaN, and never panics otherwise (CrashR "
+         "unreachable for canonical operands). FMA/Sqrt/SetFloat64 rows of the table are decided by the correspondence run and "
+         "an independent class table in the harness, exhaustive over operand classes x modes x aliasing.",
+    design_ref="DESIGN.md section 6 C04",
+    note="As C01; FMA, Sqrt and SetFloat64 special cases have no closed theorem yet (named in Props/C04.v) and are covered by "
+         "exhaustive class enumeration against the code and the model.",
+    technique="Coq proof of the special-value tables and absence of other panics + exhaustive class-table correspondence"),
+ "C06": dict(
+    category="proof",
+    text="Coq theorems (Props/C06.v, 21 closed): the algorithmic models of decBasicMul, Karatsuba (incl. the deliberately dropped "
+         "carries), mul, basicSqr, karatsubaSqr, sqr, divW, divBasic (Knuth D with the two-word quotient-digit refinement and the "
+         "wrapping add-back) and divLarge's normalisation equal the value-level product/square/quotient/remainder for ALL "
+         "lengths, contents and threshold values; div equals (u/v, u mod v) whenever the divisor is below the recursive "
+         "threshold. divRecursive (divisors of 100+ words) has no closed theorem and is decided by correspondence only. "
+         "The models are tied to dec.go by a differential run through build-tag hooks with swept thresholds and a poisoned "
+         "scratch pool.",
+    design_ref="DESIGN.md section 6 C06",
+    note="Trusted: Coq kernel; hand-written L2 models validated by differential runs (ndriver/nrunner); word kernels taken at "
+         "value level (C07). divRecursiveStep, shl/shr/digit/sticky and the radix conversions are correspondence-only.",
+    technique="Coq proof of algorithmic = value-level natural-number routines for all sizes/thresholds + correspondence"),
+ "C07": dict(
+    category="proof",
+    text="Coq theorems (Props/C07.v): the Gallina mirrors of the portable *_g kernels (explicit uint64 wrap-around, "
+         "Granlund-Montgomery div10W, magic-number division over the generated table) equal the mathematical kernel "
+         "specifications for all lengths and contents, and for the assembly routines whose proofs are closed, running the "
+         "instruction list that tools/asm2coq.py regenerates from dec_arith_amd64.s in the Coq x86-64 interpreter yields the "
+         "same result for all inputs; the kernels without a closed assembly theorem are listed in Props/C07.v and are decided "
+         "by correspondence: interpreter-on-generated-program vs the real CPU vs the _g twin vs the specification, plus "
+         "whole-library transcripts under the three build-tag configurations.",
+    design_ref="DESIGN.md section 6 C07",
+    note="Trusted: Coq kernel; asm2coq/go2coq translators; the x86-64 subset semantics of L1/X86.v (validated only against the "
+         "real CPU on these routines); Go assembler encoding. See Props/C07.v for which kernels are proved at which level.",
+    technique="Coq proof over translator-generated assembly and Go-kernel models + CPU/_g/spec correspondence"),
  "C01": dict(
     category="proof",
     text="Coq theorems (Props/C01.v, all closed under the global context) prove for ALL canonical finite operands, receiver "
